@@ -145,11 +145,13 @@ MList == /\ Consume("list")
 MRpcList == /\ Consume("rpclist")
             /\ UNCHANGED <<kinds, memo, prev>>
             /\ (Prop = "C13") => (RangeOK /\ Ev.storeagree)
+            /\ (Prop = "C19") => ~Ev.panic            \* C19: no listing request makes the handler panic
 \* api_event.go: since/until cannot be both an identifier and "now", not both "now", and reverse order needs an end
 ParamsBad == (Ev.sid /\ Ev.snow) \/ (Ev.uid /\ Ev.unow) \/ (Ev.snow /\ Ev.unow) \/ (~Ev.uid /\ ~Ev.unow /\ Ev.rev)
 MRpcParams == /\ Consume("rpcparams")
               /\ UNCHANGED <<kinds, memo, prev>>
               /\ (Prop = "C13") => (ParamsBad => ~Ev.ok)
+              /\ (Prop = "C19") => ~Ev.panic
 MNext == MReset \/ MOp \/ MMove \/ MList \/ MRpcList \/ MRpcParams
 MInit == l = 1 /\ kinds = <<>> /\ memo = {} /\ prev = <<>> /\ TLCSet(42, 1)
 MSpec == MInit /\ [][MNext]_mvars
